@@ -15,8 +15,8 @@ import (
 
 func init() {
 	register(Property{ID: "C28", Level: "other", Run: runC28,
-		Technique: "static analysis: crash-site rules (E6) over the call closure of the playback list/get and API recordings handlers inside packages playback, recordstore and api (static calls, closures, goroutines, module-interface dispatch): explicit panics, Must* with non-constant arguments, single-value type assertions, integer divisors without a non-zero guard (one call level), dereference of captured pointer variables before assignment, make lengths that are unsigned subtractions of file-derived sizes without a lower-bound test (go/ssa path conditions)",
-		Text:      "Decides, for every function reachable from playback.(*Server).onList/onGet and api.(*API).onRecordingsList/onRecordingsGet/onRecordingDeleteSegment inside packages playback, recordstore and api: P1 no explicit panic; P2 every Must* call has constant arguments or is a tabled, sanitised site; P3 every single-value type assertion is a tabled site whose dynamic type is fixed; P5 every integer / and % has a divisor that is a non-zero constant, is dominated by a non-zero test, is a tabled non-zero field, or is a parameter whose every call-site argument is one of these; P6 every dereference of a captured pointer variable is dominated, inside the closure, by an assignment or a nil test (or the variable is assigned before the closure is created); P7 every make whose length is an unsigned subtraction of a non-constant is dominated by a lower-bound test on the minuend. Absence of a report is NOT a proof of crash freedom: index arithmetic, allocation sizes, third-party parsers (go-mp4, mediacommon) and the functions outside the three packages (auth, conf, gin) are outside the rule set.",
+		Technique: "static analysis: crash-site rules (E6) over the call closure of the playback list/get and API recordings handlers inside packages playback, recordstore and api (static calls, closures, goroutines, module-interface dispatch): explicit panics, Must* with non-constant arguments, single-value type assertions, integer divisors without a non-zero guard (one call level), dereference of captured pointer variables before assignment, make lengths that are unsigned subtractions of file-derived sizes without a lower-bound test, slice bounds / indexes computed from file content without a dominating range test (data flow + go/ssa path conditions)",
+		Text:      "Decides, for every function reachable from playback.(*Server).onList/onGet and api.(*API).onRecordingsList/onRecordingsGet/onRecordingDeleteSegment inside packages playback, recordstore and api: P1 no explicit panic; P2 every Must* call has constant arguments or is a tabled, sanitised site; P3 every single-value type assertion is a tabled site whose dynamic type is fixed; P5 every integer / and % has a divisor that is a non-zero constant, is dominated by a non-zero test, is a tabled non-zero field, or is a parameter whose every call-site argument is one of these; P6 every dereference of a captured pointer variable is dominated, inside the closure, by an assignment or a nil test (or the variable is assigned before the closure is created); P7 every make whose length is an unsigned subtraction of a non-constant is dominated by a lower-bound test on the minuend; P9 every slice bound / index that is computed from file content (bytes of a buffer, binary.UintNN, numeric go-mp4/mediacommon box fields, and arithmetic on them) lies within the operand's make length by construction or is dominated by a comparison on the bound, one of its file-derived terms, the operand's len/cap or a file-derived term of its allocation length. Absence of a report is NOT a proof of crash freedom: index arithmetic on values that do not come from the file, the adequacy of the constants in a range check, 32-bit wrap-around, allocation sizes, third-party parsers (go-mp4, mediacommon) and the functions outside the three packages (auth, conf, gin) are outside the rule set.",
 		Note:      "trusted: go/ssa; go-mp4 ReadPayload returns the struct registered for the box type named in the enclosing case; mediacommon fmp4.Init.Unmarshal rejects mdhd.Timescale == 0 (init.go:146), so fmp4.InitTrack.TimeScale is non-zero"})
 	addMutants(
 		Mutant{"C28", "divisor-from-file", "internal/playback/segment_fmp4.go",
@@ -31,6 +31,10 @@ func init() {
 			"func CommonPath(v string) string {\n	common := \"\"", "func CommonPath(v string) string {\n	_ = regexp.MustCompile(v)\n	common := \"\"", "C28.P2.CommonPath"},
 		Mutant{"C28", "captured-pointer-in-parsesegments", "internal/playback/on_list.go",
 			"	parsed := make([]*parsedSegment, len(segments))\n	ch := make(chan error)\n", "	parsed := make([]*parsedSegment, len(segments))\n	ch := make(chan error)\n	var first *parsedSegment\n	defer func() {\n		if len(parsed) > 100 {\n			first.duration = 0\n		}\n	}()\n", "C28.P6.parseSegments"},
+		Mutant{"C28", "header-mvhd-sliced-from-buffer", "internal/playback/segment_fmp4.go",
+			"	var init fmp4.Init\n	err = init.Unmarshal(bytes.NewReader(buf))\n", "	var mvhd2 amp4.Mvhd\n	_, err = amp4.Unmarshal(bytes.NewReader(buf[ftypSize+16:]), uint64(moovSize-16), &mvhd2, amp4.Context{})\n	if err != nil {\n		return nil, 0, err\n	}\n\n	var init fmp4.Init\n	err = init.Unmarshal(bytes.NewReader(buf))\n", "C28.P9.segmentFMP4ReadHeader"},
+		Mutant{"C28", "track-selected-by-file-index", "internal/playback/segment_fmp4.go",
+			"		track := findInitTrack(init.Tracks, int(tfhd.TrackID))\n", "		track := init.Tracks[tfhd.TrackID-1]\n", "C28.P9.segmentFMP4ReadDurationFromParts"},
 		Mutant{"C28", "make-underflow-in-header", "internal/playback/segment_fmp4.go",
 			"	buf = make([]byte, uint64(ftypSize+moovSize))", "	buf = make([]byte, uint64(ftypSize+moovSize-16))", "C28.P7.segmentFMP4ReadHeader"},
 	)
@@ -229,11 +233,13 @@ func runC28(c *Ctx) {
 	if p == nil {
 		return
 	}
+	defer dumpObls(c)
 	c.Explain = "Reachable set: closure of the five handlers over static calls, closures, go statements and module-interface dispatch, restricted to packages internal/playback, internal/recordstore, internal/api. " +
 		"C28.P1 explicit panic; C28.P2 Must* with a non-constant argument (table: Path.Decode's MustCompile, sanitised per C26.escape); C28.P3 single-value type assertion (table: three go-mp4 payload assertions); " +
 		"C28.P5 integer divisor: non-zero constant | dominated by a non-zero test | tabled non-zero field | parameter with every call-site argument in these classes | captured variable whose every store is in these classes (its zero initial value is only observable in the box order reported by P6); " +
 		"C28.P6 dereference of a captured pointer variable before assignment/nil test; C28.P7 make length = unsigned (x - k) without a lower-bound test on x; " +
 		"C28.P8 dereference of the result of a module lookup helper that can return nil (find*) without a nil test. " +
+		"C28.P9 (prop_r3_c28.go) slice bound / index that is file-derived (data flow from byte-buffer elements, binary.ByteOrder.UintNN, integer fields of go-mp4/mediacommon boxes through + - * | ^ << >> / conversions / phis) without a dominating comparison on the bound, its file-derived terms, len/cap of the operand or the file-derived terms of the operand's make length, unless every + term of the bound is a + term of that make length. " +
 		"Not decided: crash freedom in general (index arithmetic, allocation sizes, go-mp4/mediacommon internals, code outside the three packages)."
 	c.Assume = []string{"go-mp4 ReadPayload returns the struct registered for the box type", "mediacommon fmp4.Init.Unmarshal rejects a zero mdhd time scale", "functions outside playback/recordstore/api (auth manager, conf, gin, logger) are covered by C35/C10 or trusted"}
 
@@ -565,6 +571,8 @@ func runC28(c *Ctx) {
 			}
 		})
 	}
+	// ---- P9: slice / index bounds computed from file content (prop_r3_c28.go)
+	c28FileBounds(c, p, set)
 	_ = n1
 	c.Count("P1_sites", n1)
 	c.Floor("C28.P2", n2, 1)
